@@ -1,11 +1,244 @@
-// Package c05 - correspondence harness for C05 (stub: not built yet).
+// Package c05 drives the real verifier.Verify with a scripted revocation validator over
+// all result vectors in {OK, NonRevokable, Unknown, Revoked}^n for chains of length 1..4,
+// both validator interfaces, both signing schemes and every action of the revocation type.
 package c05
 
 import (
+	"context"
+	"crypto/x509"
 	"errors"
+	"fmt"
+	"strings"
+	"time"
 
+	revresult "github.com/notaryproject/notation-core-go/revocation/result"
+	"github.com/notaryproject/notation-go"
+	"github.com/notaryproject/notation-go/verifier"
+	"github.com/notaryproject/notation-go/verifier/trustpolicy"
 	"github.com/notaryproject/notation-go/xverif/common"
+	"github.com/opencontainers/go-digest"
+	ocispec "github.com/opencontainers/image-spec/specs-go/v1"
 )
 
-// Run generates the cases of C05.
-func Run(c *common.Ctx) error { return errors.New("C05: harness not built yet") }
+type Input struct {
+	Vec            []string `json:"vec"`
+	Scheme         string   `json:"scheme"`
+	Iface          string   `json:"iface"`
+	Action         string   `json:"action"`
+	ValidatorError bool     `json:"validatorError"`
+	Methods        []string `json:"methods"`
+	ServerErrors   []bool   `json:"serverErrors"`
+}
+
+type Obs struct {
+	Outcome     string  `json:"outcome"`
+	Named       *int    `json:"named"`
+	Accepted    bool    `json:"accepted"`
+	Calls       int     `json:"calls"`
+	ChainLen    *int    `json:"chainLen"`
+	SigningTime *bool   `json:"signingTime"`
+	UsedIface   *string `json:"usedIface"`
+}
+
+var target = ocispec.Descriptor{MediaType: "application/vnd.oci.image.manifest.v1+json", Digest: digest.FromString("c05 artifact"), Size: 12}
+
+type world struct {
+	chains map[int]*common.Chain // by length
+	envs   map[string][]byte     // by length/scheme/format
+}
+
+func newWorld() *world {
+	w := &world{chains: map[int]*common.Chain{}, envs: map[string][]byte{}}
+	nb := time.Now().Add(-48 * time.Hour)
+	for n := 1; n <= 4; n++ {
+		o := common.ChainOpts{Tag: fmt.Sprintf("c05-%d", n), RootNB: nb, InterNB: nb, LeafNB: nb}
+		if n == 1 {
+			o.SelfSignedLeaf = true
+		} else {
+			o.Intermediates = n - 2
+		}
+		w.chains[n] = common.MakeChain(o)
+		if len(w.chains[n].Certs) != n {
+			panic("c05: chain length")
+		}
+	}
+	return w
+}
+
+func (w *world) env(n int, scheme, format string) []byte {
+	k := fmt.Sprint(n, scheme, format)
+	if b, ok := w.envs[k]; ok {
+		return b
+	}
+	b := common.MustSign(common.EnvOpts{Format: format, Chain: w.chains[n], Target: &target, Scheme: scheme,
+		SigningTime: time.Now().Add(-time.Hour).Truncate(time.Second)})
+	w.envs[k] = b
+	return b
+}
+
+var resMap = map[string]revresult.Result{"ok": revresult.ResultOK, "nonRevokable": revresult.ResultNonRevokable,
+	"unknown": revresult.ResultUnknown, "revoked": revresult.ResultRevoked}
+var methodMap = map[string]revresult.RevocationMethod{"ocsp": revresult.RevocationMethodOCSP, "crl": revresult.RevocationMethodCRL,
+	"fallback": revresult.RevocationMethodOCSPFallbackCRL, "unknown": revresult.RevocationMethodUnknown}
+
+func runCase(w *world, in Input, format string) Obs {
+	n := len(in.Vec)
+	chain := w.chains[n]
+	scheme := common.SchemeX509
+	storeType := "ca"
+	if in.Scheme == "signingAuthority" {
+		scheme, storeType = common.SchemeAuthority, "signingAuthority"
+	}
+	env := w.env(n, scheme, format)
+	store := common.NewMemStore()
+	store.Certs[storeType+":c05"] = []*x509.Certificate{chain.Root().Cert}
+	rev := &common.ScriptedRevocation{}
+	rev.Results = func(c []*x509.Certificate) ([]*revresult.CertRevocationResult, error) {
+		if in.ValidatorError {
+			return nil, errors.New("validator failure")
+		}
+		out := make([]*revresult.CertRevocationResult, n)
+		for k := 0; k < n; k++ {
+			m := methodMap[in.Methods[k]]
+			cr := &revresult.CertRevocationResult{Result: resMap[in.Vec[k]], RevocationMethod: m}
+			sr := &revresult.ServerResult{Result: resMap[in.Vec[k]], Server: "http://example/" + fmt.Sprint(k), RevocationMethod: m}
+			if in.ServerErrors[k] {
+				sr.Error = errors.New("server error")
+				if m == revresult.RevocationMethodOCSPFallbackCRL {
+					sr.RevocationMethod = revresult.RevocationMethodOCSP
+				}
+			}
+			cr.ServerResults = []*revresult.ServerResult{sr}
+			out[k] = cr
+		}
+		return out, nil
+	}
+	var ov map[trustpolicy.ValidationType]trustpolicy.ValidationAction
+	if in.Action != "enforce" {
+		ov = map[trustpolicy.ValidationType]trustpolicy.ValidationAction{trustpolicy.TypeRevocation: trustpolicy.ValidationAction(in.Action)}
+	}
+	doc := &trustpolicy.OCIDocument{Version: "1.0", TrustPolicies: []trustpolicy.OCITrustPolicy{{
+		Name: "c05", RegistryScopes: []string{"*"},
+		SignatureVerification: trustpolicy.SignatureVerification{VerificationLevel: "strict", Override: ov},
+		TrustStores:           []string{storeType + ":c05"},
+		TrustedIdentities:     []string{"*"},
+	}}}
+	opts := verifier.VerifierOptions{OCITrustPolicy: doc}
+	if in.Iface == "validator" {
+		opts.RevocationCodeSigningValidator = rev
+	} else {
+		opts.RevocationClient = rev.ClientView()
+	}
+	v, err := verifier.NewVerifierWithOptions(store, opts)
+	if err != nil {
+		panic(err)
+	}
+	outcome, verr := v.Verify(context.Background(), target, env, notation.VerifierVerifyOptions{
+		ArtifactReference: "reg.example/c05@" + target.Digest.String(), SignatureMediaType: format})
+	o := Obs{Outcome: "notPerformed", Accepted: verr == nil, Calls: len(rev.Calls)}
+	if len(rev.Calls) > 0 {
+		c := rev.Calls[0]
+		// the complete chain, in order
+		cl := c.ChainLen
+		for k, cert := range c.Chain {
+			if k >= n || !cert.Equal(chain.Certs[k].Cert) {
+				cl = -1
+			}
+		}
+		o.ChainLen = &cl
+		st := c.HasSigningTime
+		o.SigningTime = &st
+		iface := c.Interface
+		o.UsedIface = &iface
+	}
+	if outcome == nil {
+		panic("c05: nil outcome")
+	}
+	for _, r := range outcome.VerificationResults {
+		if r.Type != trustpolicy.TypeRevocation {
+			if r.Error != nil {
+				panic(fmt.Sprintf("c05: unexpected %s failure: %v", r.Type, r.Error))
+			}
+			continue
+		}
+		if r.Error == nil {
+			o.Outcome = "pass"
+			continue
+		}
+		msg := r.Error.Error()
+		switch {
+		case strings.Contains(msg, "is revoked"):
+			o.Outcome = "revoked"
+		case strings.Contains(msg, "revocation status is unknown"):
+			o.Outcome = "unknown"
+		default:
+			o.Outcome = "inconclusive"
+		}
+		// which certificate does the error name?
+		for k, c := range chain.Certs {
+			if strings.Contains(msg, fmt.Sprintf("%q", c.Cert.Subject.String())) {
+				kk := k
+				o.Named = &kk
+			}
+		}
+	}
+	return o
+}
+
+func vectors(n int) [][]string {
+	if n == 0 {
+		return [][]string{{}}
+	}
+	var out [][]string
+	for _, v := range vectors(n - 1) {
+		for _, r := range []string{"ok", "nonRevokable", "unknown", "revoked"} {
+			out = append(out, append(append([]string{}, v...), r))
+		}
+	}
+	return out
+}
+
+// Run enumerates every vector for n = 1..4 x scheme x interface x action (x validator error
+// on a sample), with random method annotations and server errors.
+func Run(c *common.Ctx) error {
+	w := newWorld()
+	methods := []string{"ocsp", "crl", "fallback", "unknown"}
+	reps := 1
+	if c.Thorough() {
+		reps = 6
+	}
+	for rep := 0; rep < reps; rep++ {
+		for n := 1; n <= 4; n++ {
+			for _, vec := range vectors(n) {
+				for _, scheme := range []string{"x509", "signingAuthority"} {
+					for _, iface := range []string{"validator", "client"} {
+						for _, action := range []string{"enforce", "log", "skip"} {
+							for _, verr := range []bool{false, true} {
+								if verr && c.Rand.Intn(4) != 0 {
+									continue
+								}
+								in := Input{Vec: vec, Scheme: scheme, Iface: iface, Action: action, ValidatorError: verr}
+								for k := 0; k < n; k++ {
+									in.Methods = append(in.Methods, methods[c.Rand.Intn(len(methods))])
+									in.ServerErrors = append(in.ServerErrors, c.Rand.Intn(4) == 0)
+								}
+								format := common.MediaJWS
+								if c.Rand.Intn(3) == 0 {
+									format = common.MediaCOSE
+								}
+								o := runCase(w, in, format)
+								c.Emit(in, o)
+								c.Count("outcome=" + o.Outcome)
+								c.Count(fmt.Sprintf("n=%d", n))
+								c.Count("action=" + action)
+							}
+						}
+					}
+				}
+			}
+		}
+	}
+	c.SetExhaustive(true)
+	c.Note("all 340 result vectors over chains of length 1..4 x {x509, signingAuthority} x {validator, deprecated client} x {enforce, log, skip}; validator-level error on a quarter; random method annotations and per-server errors; real JWS/COSE envelopes through verifier.Verify")
+	return nil
+}
